@@ -33,6 +33,7 @@ RULE += (
          'regex metacharacters. ')
 RULE += ('Round 8: non-bindings at every position of dtml-let; attribute strings accepted by one tag transplanted to tags that do not accept them (same source, later compilation). ')
 RULE += ('Round 9: expressions refused only by the byte-code compiler; continuation tags with nothing between them. ')
+RULE += ('Round 10: attribute values that are not numbers (size=big) are no grammar errors. ')
 ASSUMPTIONS = [
     'sources are <= 4 KB with nesting <= 60 (beyond that the recursive '
     'parser meets Python\'s recursion limit, a resource bound)',
